@@ -17,27 +17,15 @@ Proof.
 Qed.
 
 (** The loop state of the regenerated decode() is the tuple of the variables its body assigns, in the
-    order the translator meets them; the model's is (self, headers, inflated_size, current_index). *)
-Definition perm (s : Z * Z * list Decoder.header * decoder) : Decoder.dstate :=
-  let '(current_index, inflated_size, headers, self) := s in (self, headers, inflated_size, current_index).
-
+    order the translator meets them; the model's is (self, headers, inflated_size, current_index):
+    [crush_with] identifies the two loops under the permutation that relates them ([loop_sync]). *)
 Ltac callees :=
   rewrite ?b_Decoder__decode_indexed, ?b_Decoder__decode_literal_index, ?b_Decoder__decode_literal_no_index,
           ?b_Decoder__update_encoding_context, ?b_Decoder__assert_valid_table_size, ?traverse_unicode.
 
 Lemma b_Decoder_decode : forall d data raw, GDecoder.Decoder_decode d data raw = Decoder.Decoder_decode d data raw.
 Proof.
-  intros d data raw. unfold GDecoder.Decoder_decode, Decoder.Decoder_decode. cbv zeta.
-  match goal with
-  | |- match while_fuel ?n ?g ?s with _ => _ end = match while_fuel ?n ?h ?t with _ => _ end =>
-      change t with (perm s);
-      rewrite (while_fuel_map perm g h);
-      [ destruct (while_fuel n g s) as [[[[? ?] ?] ?]|? [[[? ?] ?] ?]|? [[[? ?] ?] ?]|[[[? ?] ?] ?]];
-        unfold perm; crush_with callees
-      | ]
-  end.
-  (* one iteration *)
-  intros [[[current_index inflated_size] headers] self].
-  unfold perm, Decoder.decode_body, Decoder.dstate. crush_with callees.
+  intros d data raw. unfold GDecoder.Decoder_decode, Decoder.Decoder_decode, Decoder.decode_body, Decoder.dstate.
+  crush_with callees.
 Qed.
 Print Assumptions b_Decoder_decode.
